@@ -415,7 +415,7 @@ def u_compress_g2(ctx):
 class SqrtFQ2Contract:
     """modular_squareroot_in_FQ2(value): *havocked* — None or some reduced F_p2 element.  The decoder checks
     the final point with is_on_curve, so soundness and canonicity need nothing about it.  For completeness the
-    assumed lemma L-SQRT8 (Lean Roots.lean fourth_root_cases / sqrt_from_candidate + table facts) says: if value
+    contract proved by unit codec.sqrt_FQ2 (with Lean Roots.lean check_is_fourth_root / fourth_root_cases + table facts) says: if value
     is a square with root Y the result is +-Y."""
 
     def __init__(self, it, lemma=None):
@@ -516,7 +516,7 @@ def u_roundtrip_g2(ctx):
         e = enc2(zt(Xre), zt(Xim), zt(Yre), zt(Yim))
 
         def lemma(p_, env):
-            # L-SQRT8 (assumed / Lean core): value = Y^2 is a square  =>  the result is Y or -Y
+            # contract of modular_squareroot_in_FQ2 (unit codec.sqrt_FQ2): value = Y^2 is a square  =>  the result is Y or -Y
             if p_.choose(2, "root") == 0:
                 p_.sig[-1] = "root=+Y"
                 return mk_fq2(it, Yre, Yim)
@@ -538,8 +538,8 @@ def u_roundtrip_g2(ctx):
                    ZAtom(z3.And(zt(xs[0]) == zt(Xre), zt(xs[1]) == zt(Xim), zt(ys[0]) == zt(Yre), zt(ys[1]) == zt(Yim),
                                 zt(zs[0]) == 1, zt(zs[1]) == 0)), detail="decompress_G2(compress_G2(P)) = P")
     ctx.ex.run(body, name)
-    ctx.assume("L-SQRT8: modular_squareroot_in_FQ2(Y^2) is +-Y (eighth-roots method; core steps Lean-checked in Roots.lean, "
-               "table facts by eval) — needed only for G2 round-trip completeness")
+    ctx.trust("contract of modular_squareroot_in_FQ2 at the call site: (Y^2) -> +-Y, proved from the real source by unit codec.sqrt_FQ2 "
+              "(lemma instances: Lean Roots.lean check_is_fourth_root, fourth_root_cases; table facts: closed unit codec.eighth-roots)")
 
 
 def sym_bytes_fixed(path, name, n):
@@ -623,6 +623,102 @@ def u_byte_helpers(ctx):
     ctx.ex.run(body_d, qd)
 
 
+def u_sqrt_fq2(ctx):
+    """modular_squareroot_in_FQ2 against the contract the decoder relies on (this is the code-level half of L-SQRT8):
+       (S) a returned value squares to the argument;
+       (C) for value = Y^2, Y != 0 the result is Y or -Y — in particular never None.
+    Abstract field F_{q^2} (polyid), symbolic eighth-root table with the facts of the closed unit codec.eighth-roots,
+    the ~760-bit exponentiation havocked to c with the lemma instance  c^2 = value * t,  t^4 = 1
+    (Lean Roots.lean check_is_fourth_root + exponent bookkeeping 2*((q^2+7)/16) = 1 + (q^2-1)/8, closed fact)."""
+    from pyvc.core import FAtom, FldKind, fsym
+    from contracts.h2c import run_with_bigpow, eqz, nez
+    q = f"{PC}.modular_squareroot_in_FQ2"
+    fv = get_function(ctx.prog, q)
+
+    class F2Kind(FldKind):
+        """abstract F_{q^2}; `.coeffs` of an element is an opaque pair of reduced ints (only compared, to pick one of x1, -x1)"""
+
+        def elem_getattr(self, interp, o, name):
+            if name != "coeffs":
+                raise Unsupported(f"attribute {name} of an abstract F_q2 element")
+            k = next(cur().fresh_id)
+            return (SInt(z3.Int(f"co!{k}re")), SInt(z3.Int(f"co!{k}im")))
+
+    def body(path):
+        K = F2Kind("Fq2")
+        square = path.choose(2, "argument") == 0
+        path.sig[-1] = "value = Y^2" if square else "any value != 0"
+        e = [fsym(f"e{k}", K) for k in range(8)]
+        one = K(1)
+        for a_, b_, why in ((e[0], one, "roots[0] = 1"), (e[4], -one, "roots[4] = -1"), (e[1] * e[1], e[2], "roots[1]^2 = roots[2]"),
+                            (e[2] * e[2], e[4], "roots[2]^2 = roots[4]"), (e[3] * e[3], e[6], "roots[3]^2 = roots[6]"),
+                            (e[6], -e[2], "roots[6] = roots[2] roots[4]")):
+            path.assume(eqz(a_, b_), "closed fact codec.eighth-roots: " + why)
+        for k in (1, 2, 3):
+            path.assume(nez(e[k]), "closed fact codec.eighth-roots: roots are non-zero")
+        for a_ in range(8):
+            for b_ in range(a_ + 1, 8):
+                path.assume(nez(e[a_] - e[b_]), "closed fact codec.eighth-roots: the eight roots are pairwise different")
+        if square:
+            Y = fsym("Y", K)
+            path.assume(nez(Y), "value = Y^2 with Y != 0 (no twist point has y = 0: closed fact bls.no-y0-points)")
+            value = Y * Y
+        else:
+            value = fsym("v", K)
+            path.assume(nez(value), "value != 0")
+        it = mk_interp(ctx, q, globals_={(PC, "EIGHTH_ROOTS_OF_UNITY"): tuple(e), (PC, "FQ2"): K})
+        t = fsym("t", K)
+        state = {}
+        orig_pow = None
+
+        def run():
+            return call_top(it, fv, [value])
+        from pyvc.core import Fld as _F
+        orig = _F.__pow__
+
+        def pw(self, k):
+            if isinstance(k, int) and k > 64:
+                p_ = cur()
+                c = fsym(f"c{next(p_.fresh_id)}", K)
+                state.setdefault("pows", []).append((self, k, c))
+                if square:
+                    p_.assume(eqz(c * c, self * t), "candidate^2 = value * value^((q^2-1)/8)   (2e = 1 + (q^2-1)/8: closed fact)")
+                    p_.assume(eqz(t * t * t * t, one), "Lean Roots.lean check_is_fourth_root: (Y^2)^((q^2-1)/8) is a fourth root of unity")
+                return c
+            return orig(self, k)
+        _F.__pow__ = pw
+        try:
+            kind, res = run()
+        finally:
+            _F.__pow__ = orig
+        if kind == "raise":
+            path.prove(f"{q}/raises.never", False, detail=res.__name__)
+            return
+        pows = state.get("pows", [])
+        path.prove(f"{q}/ensures.one-bigpow", len(pows) == 1 and path.pc.prove_zero((pows[0][0] - value).r.n),
+                   detail="exactly one large exponentiation, of the argument (the candidate)")
+        if res is None:
+            if not square:
+                path.prove(f"{q}/ensures.none", True, detail="None is allowed for an arbitrary value (decided by the code's own test)")
+                return
+            # the four even roots are 1, i, -1, -i; on this path t differs from each, yet t^4 = 1: contradiction in a field
+            prod = (t - e[0]) * (t - e[2]) * (t - e[4]) * (t - e[6])
+            contradiction = path.pc.prove_zero(prod.r.n) and all(path.pc.prove_nonzero((t - e[k]).r.n) for k in (0, 2, 4, 6))
+            path.prove(f"{q}/ensures.complete", contradiction,
+                       detail="value = Y^2: returning None requires check outside {1, i, -1, -i} although check^4 = 1 "
+                              "(Lean fourth_root_cases): the path is contradictory")
+            return
+        ok = isinstance(res, _F) and res.kind is K
+        path.prove(f"{q}/ensures.shape", ok, detail="an F_q2 element or None")
+        if not ok:
+            return
+        path.prove(f"{q}/ensures.root", eqz(res * res, value), detail="a returned value squares to the argument")
+        if square:
+            path.prove(f"{q}/ensures.pm", eqz((res - Y) * (res + Y)), detail="value = Y^2: result is Y or -Y (Lean sq_eq_sq_cases)")
+    ctx.ex.run(body, q)
+
+
+UNITS["codec.sqrt_FQ2"] = Unit("codec.sqrt_FQ2", u_sqrt_fq2, [f"{PC}.modular_squareroot_in_FQ2"], props=("C11", "C04", "C02"))
 UNITS["codec.compress_G2"] = Unit("codec.compress_G2", u_compress_g2, [f"{PC}.compress_G2"], props=("C11", "C09", "C02"))
 UNITS["codec.decompress_G2"] = Unit("codec.decompress_G2", u_decompress_g2, [f"{PC}.decompress_G2"], props=("C11", "C04", "C02"))
 UNITS["codec.roundtrip_G2"] = Unit("codec.roundtrip_G2", u_roundtrip_g2, [f"{PC}.decompress_G2", f"{PC}.compress_G2"],
